@@ -332,6 +332,7 @@ func c20r3(c *core.Ctx) {
 }
 
 func c20r4(c *core.Ctx) {
+	transportAnnouncement(c)
 	p := c.P
 	isPaired := p.Func("", "(*ipTransport).isPaired")
 	if isPaired == nil {
